@@ -4,6 +4,7 @@ from ..facts import AnchorMissing
 from .. import tabulate
 
 EXPLANATION = (
+    "(sound) on the expression catalogue (sa/rules/exhaust.py: every top-level sequence of up to two / three segments around one alternation or repetition whose sub-expressions have up to two segments, two branch tokens in one sequence, a branch nested in a repetition; built as the parser builds them, kept when the rule checker accepts them) the depth variance Token::variance::<Depth> reports (the whole fold evaluated from its THIR) is compared with the number of components of the canonical paths the emitted program matches - minimum and maximum computed on its automaton, relative paths for an unrooted pattern, rooted ones for a rooted pattern, the empty path left out: invariant n means exactly n, a range must contain them.  This decides the property for the shapes of the catalogue, not for all expressions.  For all inputs, the finite algebra: "
     "Static decision of the finite algebra the depth analysis is built from: the 25-cell termination conjunction table "
     "against a reference computed from a model (edges are separators or not; a tree wildcard owns the edge it touches), "
     "the finalisation of separated terms (+1 for an open term on every bound, -1 for a closed invariant, others "
@@ -11,7 +12,7 @@ EXPLANATION = (
     "disjunction, concatenation and repetition = conjunction, repetition finalised by a product with its own range), and "
     "the result shapes of Variance conjunction / disjunction / product (anything combined with an unbounded term is "
     "never invariant and never regains an upper bound).  (range) the arithmetic of the natural ranges: conjunction, disjunction, product (range x range and range x factor) and translation of BoundedVariantRange, evaluated on a grid of all operand shapes (Lower / Upper / Both) x three magnitudes each, contain the result of interval arithmetic - each bound is one of finitely many polynomials of degree <= 2 chosen by the operand shapes, so the grid decides which one is used.")
-RULES = "C10.term (TABLE), C10.final (TABLE), C10.leaf (TABLE), C10.ops (SIBLING), C10.shape (TABLE), C10.range (TABLE on a grid)"
+RULES = "C10.sound (TABLE on a catalogue: verdict vs. language), C10.term (TABLE), C10.final (TABLE), C10.leaf (TABLE), C10.ops (SIBLING), C10.shape (TABLE), C10.range (TABLE on a grid)"
 
 TERM = "token::variance::invariant::term::Termination"
 COAL = "token::variance::invariant::term::Coalescence"
@@ -51,6 +52,8 @@ def run(ctx):
     rule_ops(F, R)
     rule_shape(F, R)
     rule_range(F, R)
+    from . import exhaust
+    exhaust.report_query(F, R, "C10.sound", ctx.tier, "depth", 5000, 1500)
 
 
 def new_interp(F, stubs=None):
